@@ -10,33 +10,32 @@ Open Scope Q_scope.
 (* ================================================================================================ *)
 
 Lemma str_compare_same : forall s t, String.compare s t = String_as_OT.compare s t.
-Proof.
-  induction s as [|a s IH]; destruct t as [|b t]; cbn; try reflexivity.
-  unfold Ascii_as_OT.compare, Ascii.compare. rewrite IH.
-  destruct (N.compare (Ascii.N_of_ascii a) (Ascii.N_of_ascii b)); reflexivity.
-Qed.
+Proof. intros s t. reflexivity. Qed.   (* the two fixpoints are convertible *)
 
 Lemma str_leb_refl : forall s, String.leb s s = true.
 Proof.
   intros s. destruct (String.leb_total s s) as [H|H]; exact H.
 Qed.
 
+Lemma str_leb_iff : forall a b,
+  String.leb a b = true <-> (a = b \/ String_as_OT.lt a b).
+Proof.
+  intros a b. unfold String.leb. rewrite str_compare_same.
+  destruct (String_as_OT.compare_spec a b) as [H|H|H]; unfold String_as_OT.eq in *.
+  - split; [intros _; left; exact H|reflexivity].
+  - split; [intros _; right; exact H|reflexivity].
+  - split; [discriminate|]. intros [E|L]; exfalso.
+    + subst b. exact (StrictOrder_Irreflexive _ H).
+    + exact (StrictOrder_Irreflexive _ (StrictOrder_Transitive _ _ _ H L)).
+Qed.
+
 Lemma str_leb_trans : forall a b c,
   String.leb a b = true -> String.leb b c = true -> String.leb a c = true.
 Proof.
-  intros a b c. unfold String.leb. rewrite !str_compare_same.
-  destruct (String_as_OT.compare_spec a b) as [Hab|Hab|Hab]; try discriminate;
-  destruct (String_as_OT.compare_spec b c) as [Hbc|Hbc|Hbc]; try discriminate; intros _ _.
-  - subst. destruct (String_as_OT.compare_spec c c) as [H|H|H]; try reflexivity.
-    exfalso. exact (StrictOrder_Irreflexive _ H).
-  - subst. destruct (String_as_OT.compare_spec b c) as [H|H|H]; try reflexivity.
-    exfalso. exact (StrictOrder_Irreflexive _ (StrictOrder_Transitive _ _ _ H Hbc)).
-  - subst. destruct (String_as_OT.compare_spec a c) as [H|H|H]; try reflexivity.
-    exfalso. exact (StrictOrder_Irreflexive _ (StrictOrder_Transitive _ _ _ H Hab)).
-  - destruct (String_as_OT.compare_spec a c) as [H|H|H]; try reflexivity.
-    exfalso.
-    exact (StrictOrder_Irreflexive _
-             (StrictOrder_Transitive _ _ _ H (StrictOrder_Transitive _ _ _ Hab Hbc))).
+  intros a b c Hab Hbc. rewrite str_leb_iff in *.
+  destruct Hab as [->|Hab]; [exact Hbc|].
+  destruct Hbc as [<-|Hbc]; [right; exact Hab|].
+  right. exact (StrictOrder_Transitive _ _ _ Hab Hbc).
 Qed.
 
 Definition key_le (a b : pkey) : Prop := key_leb a b = true.
@@ -197,8 +196,8 @@ Proof.
   intros A. induction l as [|y l IH]; intros a i x H.
   - destruct i; discriminate.
   - destruct i as [|i]; cbn [length seq combine nth_error] in *.
-    + injection H as <-. repeat f_equal. lia.
-    + rewrite (IH (S a) i x H). repeat f_equal. lia.
+    + injection H as <-. now rewrite Nat.add_0_r.
+    + rewrite (IH (S a) i x H). now replace (S a + i)%nat with (a + S i)%nat by lia.
 Qed.
 
 Lemma nth_error_indexed : forall {A} (l : list A) i x,
@@ -436,5 +435,329 @@ Proof.
   intros sqrt_o o diag keys slow st own o1 o2 o1' o2' Hn.
   apply own_keys_only. intros k Hk. specialize (Hn k Hk).
   rewrite !map_app, !in_app_iff in Hn.
-  rewrite !lookup_app_other by tauto. rewrite !lookup_app_other_r by tauto. reflexivity.
+  rewrite (lookup_app_other (fst k) o1) by tauto. rewrite (lookup_app_other (fst k) o1') by tauto.
+  rewrite (lookup_app_other_r (fst k) own o2) by tauto.
+  rewrite (lookup_app_other_r (fst k) own o2') by tauto. reflexivity.
+Qed.
+
+(* ================================================================================================ *)
+(* 6. the tuned matrix has a positive trace; the step size is rescaled so that                       *)
+(*    step^2 * trace is preserved (stated on squares: jnp.sqrt is an oracle)                        *)
+(* ================================================================================================ *)
+From Coq Require Import Lqa.
+
+Lemma qsum_cons : forall x l, qsum (x :: l) == x + qsum l.
+Proof. intros x l. unfold qsum. cbn [fold_right]. apply Qred_correct. Qed.
+
+Lemma qsum_nonneg : forall l, Forall (fun x => 0 <= x) l -> 0 <= qsum l.
+Proof.
+  induction l as [|x l IH]; intros H.
+  - cbn. lra.
+  - rewrite qsum_cons. inversion H as [|? ? Hx Hl]; subst. specialize (IH Hl). lra.
+Qed.
+
+Lemma qsum_pos : forall l, l <> [] -> Forall (fun x => reg <= x) l -> 0 < qsum l.
+Proof.
+  intros [|x l] Hne H; [congruence|].
+  rewrite qsum_cons. inversion H as [|? ? Hx Hl]; subst.
+  assert (0 <= qsum l).
+  { apply qsum_nonneg. eapply Forall_impl; [|exact Hl]. intros a Ha. unfold reg in Ha. lra. }
+  unfold reg in Hx. lra.
+Qed.
+
+Lemma qsquare_nonneg : forall y : Q, 0 <= y * y.
+Proof.
+  intros y. destruct (Qlt_le_dec y 0) as [H|H].
+  - setoid_replace (y * y) with ((- y) * (- y)) by ring.
+    apply Qmult_le_0_compat; lra.
+  - apply Qmult_le_0_compat; exact H.
+Qed.
+
+Lemma dev_prod_self_nonneg : forall m c, Forall (fun x => 0 <= x) (dev_prod m m c c).
+Proof.
+  intros m. induction c as [|x c IH]; cbn [dev_prod]; constructor; [|exact IH].
+  apply qsquare_nonneg.
+Qed.
+
+Lemma qlen_gt_1 : forall c : list Q, (2 <= length c)%nat -> 0 < qlen c - 1.
+Proof.
+  intros c H. unfold qlen.
+  assert (H1 : inject_Z 1 < inject_Z (Z.of_nat (length c))) by (rewrite <- Zlt_Qlt; lia).
+  change (inject_Z 1) with 1 in H1. lra.
+Qed.
+
+Lemma var_nonneg : forall s x, var_q s = Some x -> 0 <= x.
+Proof.
+  intros s x H. unfold var_q, cov_q in H.
+  destruct (2 <=? length s)%nat eqn:E; cbn [andb] in H; [|discriminate].
+  destruct (length s =? length s)%nat; [|discriminate].
+  assert (Hx : x = Qred (qsum (dev_prod (mean s) (mean s) s s) / (qlen s - 1))) by congruence.
+  rewrite Hx. clear H Hx.
+  match goal with |- 0 <= Qred ?X => setoid_replace (Qred X) with X by apply Qred_correct end.
+  apply Nat.leb_le in E.
+  apply Qle_shift_div_l; [apply qlen_gt_1; exact E|].
+  assert (0 <= qsum (dev_prod (mean s) (mean s) s s))
+    by (apply qsum_nonneg, dev_prod_self_nonneg).
+  lra.
+Qed.
+
+Lemma tune_diag_ge_reg : forall cols v, tune_diag cols = Some v -> Forall (fun x => reg <= x) v.
+Proof.
+  unfold tune_diag. induction cols as [|c cols IH]; intros v H; cbn [mapM] in H.
+  - injection H as <-. constructor.
+  - destruct (var_q c) as [x|] eqn:Ev; cbn [option_map] in H; [|discriminate].
+    destruct (mapM _ cols) as [v'|] eqn:E; [|discriminate]. injection H as <-.
+    constructor; [|apply IH; reflexivity].
+    pose proof (var_nonneg _ _ Ev). lra.
+Qed.
+
+Lemma full_diag_gen : forall cols l pre a m',
+  cols = pre ++ l -> a = length pre ->
+  mapM (fun ic => mapM (full_entry ic) (indexed cols)) (combine (seq a (length l)) l) = Some m' ->
+  tune_diag l = Some (diag_from a m').
+Proof.
+  intros cols. induction l as [|c l IH]; intros pre a m' Hc Ha H.
+  - cbn in H. injection H as <-. reflexivity.
+  - cbn [length seq combine mapM] in H.
+    destruct (mapM (full_entry (a, c)) (indexed cols)) as [row|] eqn:Er; [|discriminate].
+    destruct (mapM _ (combine (seq (S a) (length l)) l)) as [m''|] eqn:Em; [|discriminate].
+    injection H as <-.
+    assert (Hn : nth_error cols a = Some c).
+    { subst cols a. rewrite nth_error_app2 by lia. now rewrite Nat.sub_diag. }
+    destruct (mapM_nth _ _ _ _ _ Er (nth_error_indexed _ _ _ Hn)) as [y [Hy Hr]].
+    unfold full_entry in Hy. cbn [fst snd] in Hy. rewrite Nat.eqb_refl in Hy.
+    unfold tune_diag. cbn [mapM diag_from]. fold (var_q c) in Hy. rewrite Hy.
+    assert (IH' : tune_diag l = Some (diag_from (S a) m'')).
+    { apply (IH (pre ++ [c])).
+      - subst cols. now rewrite <- app_assoc.
+      - subst a. rewrite app_length. cbn. lia.
+      - exact Em. }
+    unfold tune_diag in IH'. rewrite IH'.
+    now rewrite (nth_error_nth _ _ 0 Hr).
+Qed.
+
+(* the diagonal of the dense matrix is the diagonal-mode vector *)
+Lemma full_diag : forall cols m, tune_full cols = Some m -> tune_diag cols = Some (diag_from 0 m).
+Proof.
+  intros cols m H. apply (full_diag_gen cols cols [] 0%nat m); [reflexivity|reflexivity|exact H].
+Qed.
+
+Theorem trace_pos : forall o diag keys h new, tune_mm o diag keys h = Some new -> 0 < trace new.
+Proof.
+  intros o diag keys h new H.
+  destruct (tune_mm_cols _ _ _ _ _ H) as [cols [Hne [_ [_ Ht]]]].
+  assert (Hv : exists v, tune_diag cols = Some v /\ trace new = qsum v).
+  { destruct diag.
+    - destruct (tune_diag cols) as [v|]; [|discriminate]. injection Ht as <-.
+      exists v. split; reflexivity.
+    - destruct (tune_full cols) as [m|] eqn:Ef; [|discriminate]. injection Ht as <-.
+      exists (diag_from 0 m). split; [apply full_diag; exact Ef|reflexivity]. }
+  destruct Hv as [v [Hd ->]]. apply qsum_pos.
+  - intros ->. unfold tune_diag in Hd. apply mapM_length in Hd.
+    destruct cols; [congruence|discriminate].
+  - eapply tune_diag_ge_reg; exact Hd.
+Qed.
+
+Theorem step_rescale : forall sqrt_o o diag keys st h st',
+  tune_slow sqrt_o o diag keys st (Some h) = Some st' ->
+  sqrt_o (trace (imm st) / trace (imm st')) * sqrt_o (trace (imm st) / trace (imm st'))
+    == trace (imm st) / trace (imm st') ->
+  0 < trace (imm st') /\
+  step st' * step st' * trace (imm st') == step st * step st * trace (imm st).
+Proof.
+  intros sqrt_o o diag keys st h st' H Hsq. unfold tune_slow in H.
+  destruct (tune_mm o diag keys h) as [new|] eqn:Em; [|discriminate]. injection H as <-.
+  cbn [imm step] in *. pose proof (trace_pos _ _ _ _ _ Em) as Hpos. split; [exact Hpos|].
+  set (r := trace (imm st) / trace new) in *.
+  setoid_replace (sqrt_o r * step st * (sqrt_o r * step st) * trace new)
+    with ((sqrt_o r * sqrt_o r) * (step st * step st) * trace new) by ring.
+  rewrite Hsq. unfold r. field. lra.
+Qed.
+
+(* ================================================================================================ *)
+(* 7. every slow epoch re-tunes from that epoch's history alone                                      *)
+(* ================================================================================================ *)
+
+Theorem slow_epoch_fresh : forall sqrt_o o diag keys st h st',
+  tune sqrt_o o diag keys true st (Some h) = Some st' -> tune_mm o diag keys h = Some (imm st').
+Proof.
+  intros sqrt_o o diag keys st h st' H. unfold tune, tune_slow in H.
+  destruct (tune_mm o diag keys h) as [new|]; [|discriminate]. injection H as <-. reflexivity.
+Qed.
+
+Theorem not_slow_unchanged : forall sqrt_o o diag keys st h,
+  tune sqrt_o o diag keys false st h = Some st /\ tune sqrt_o o diag keys true st None = Some st.
+Proof. intros. split; reflexivity. Qed.
+
+Lemma run_epochs_app : forall sqrt_o o diag keys a b st,
+  run_epochs sqrt_o o diag keys st (a ++ b) =
+  match run_epochs sqrt_o o diag keys st a with
+  | Some s => run_epochs sqrt_o o diag keys s b
+  | None => None
+  end.
+Proof.
+  intros sqrt_o o diag keys. induction a as [|[slow h] a IH]; intros b st; cbn; [reflexivity|].
+  destruct (tune sqrt_o o diag keys slow st h); [apply IH|reflexivity].
+Qed.
+
+Definition no_retune (e : bool * option history) : Prop := fst e = false \/ snd e = None.
+
+Lemma run_epochs_no_retune : forall sqrt_o o diag keys post st,
+  Forall no_retune post -> run_epochs sqrt_o o diag keys st post = Some st.
+Proof.
+  intros sqrt_o o diag keys. induction post as [|[slow h] post IH]; intros st H; [reflexivity|].
+  inversion H as [|? ? He Hp]; subst. cbn [run_epochs].
+  assert (Ht : tune sqrt_o o diag keys slow st h = Some st).
+  { destruct He as [He|He]; cbn in He; subst; [reflexivity|]. destruct slow; reflexivity. }
+  rewrite Ht. apply IH. exact Hp.
+Qed.
+
+Theorem last_slow_epoch : forall sqrt_o o diag keys st pre h post st',
+  run_epochs sqrt_o o diag keys st (pre ++ (true, Some h) :: post) = Some st' ->
+  Forall no_retune post ->
+  tune_mm o diag keys h = Some (imm st').
+Proof.
+  intros sqrt_o o diag keys st pre h post st' H Hp.
+  rewrite run_epochs_app in H.
+  destruct (run_epochs sqrt_o o diag keys st pre) as [s|]; [|discriminate].
+  cbn [run_epochs] in H.
+  destruct (tune sqrt_o o diag keys true s (Some h)) as [s'|] eqn:Et; [|discriminate].
+  rewrite (run_epochs_no_retune _ _ _ _ _ _ Hp) in H. injection H as <-.
+  eapply slow_epoch_fresh. exact Et.
+Qed.
+
+Theorem tune_keeps_kind : forall sqrt_o o diag keys slow st h st',
+  tune sqrt_o o diag keys slow st h = Some st' ->
+  kind_ok diag (imm st) = true -> kind_ok diag (imm st') = true.
+Proof.
+  intros sqrt_o o diag keys slow st h st' H Hk. unfold tune in H.
+  destruct slow; [|injection H as <-; exact Hk].
+  unfold tune_slow in H. destruct h as [h|]; [|injection H as <-; exact Hk].
+  destruct (tune_mm o diag keys h) as [new|] eqn:Em; [|discriminate]. injection H as <-.
+  cbn [imm]. unfold tune_mm in Em.
+  destruct (hist_columns _ h); [|discriminate]. destruct (stack _); [|discriminate].
+  destruct diag.
+  - destruct (tune_diag _); [|discriminate]. injection Em as <-. reflexivity.
+  - destruct (tune_full _); [|discriminate]. injection Em as <-. reflexivity.
+Qed.
+
+(* ================================================================================================ *)
+(* 8. the code as found (columns in the listed order): refuted, defect F4                            *)
+(* ================================================================================================ *)
+Local Open Scope string_scope.
+
+Definition f4_keys : list pkey := [("zeta", 1%nat); ("alpha", 2%nat)].
+Definition f4_hist : history :=
+  [("zeta", [[0]; [100]; [200]]); ("alpha", [[1; 0]; [2; 0]; [3; 1]]); ("other", [[7]; [8]; [5]])].
+
+Theorem as_listed_refuted :
+  exists keys h v s x y,
+    tune_mm AsListed true keys h = Some (Diag v) /\
+    nth_error (flat_coords keys) 0 = Some ("alpha", 0%nat) /\
+    coord_series h "alpha" 0 = Some s /\ var_q s = Some x /\
+    nth_error v 0 = Some y /\ ~ (y == x + reg) /\
+    (exists sz xz, coord_series h "zeta" 0 = Some sz /\ var_q sz = Some xz /\ y == xz + reg).
+Proof.
+  exists f4_keys, f4_hist.
+  eexists. eexists. eexists. eexists.
+  split; [vm_compute; reflexivity|].
+  split; [vm_compute; reflexivity|].
+  split; [vm_compute; reflexivity|].
+  split; [vm_compute; reflexivity|].
+  split; [vm_compute; reflexivity|].
+  split; [vm_compute; discriminate|].
+  eexists. eexists.
+  split; [vm_compute; reflexivity|].
+  split; [vm_compute; reflexivity|].
+  vm_compute. reflexivity.
+Qed.
+
+(* ... and it depends on the order in which the keys were listed *)
+Theorem as_listed_order_dependent :
+  exists keys keys' h v v' y y',
+    Permutation keys keys' /\ NoDup (map fst keys) /\
+    tune_mm AsListed true keys h = Some (Diag v) /\
+    tune_mm AsListed true keys' h = Some (Diag v') /\
+    nth_error v 0 = Some y /\ nth_error v' 0 = Some y' /\ ~ (y == y').
+Proof.
+  exists f4_keys, [("alpha", 2%nat); ("zeta", 1%nat)], f4_hist.
+  eexists. eexists. eexists. eexists.
+  split; [apply perm_swap|].
+  split; [repeat constructor; cbn; intuition discriminate|].
+  split; [vm_compute; reflexivity|].
+  split; [vm_compute; reflexivity|].
+  split; [vm_compute; reflexivity|].
+  split; [vm_compute; reflexivity|].
+  vm_compute. discriminate.
+Qed.
+
+(* ================================================================================================ *)
+(* 9. non-vacuity: the hypotheses of the theorems hold on concrete objects                           *)
+(* ================================================================================================ *)
+
+Definition ex_keys : list pkey := [("zeta", 1%nat); ("alpha", 2%nat); ("B", 4%nat)].
+Definition ex_hist : history :=
+  [("other", [[7]; [8]; [5]; [1]]);
+   ("zeta", [[0]; [100]; [200]; [100]]);
+   ("B", [[1; 2; 3; 4]; [2; 2; 5; 4]; [4; 1; 3; 0]; [1; 1; 1; 1]]);
+   ("alpha", [[1; 0]; [2; 0]; [3; 1]; [0; 5]])].
+
+Example ex_flat_coords :
+  flat_coords ex_keys =
+  [("B", 0); ("B", 1); ("B", 2); ("B", 3); ("alpha", 0); ("alpha", 1); ("zeta", 0)]%nat.
+Proof. vm_compute. reflexivity. Qed.
+
+Example ex_aligned_diag : exists v,
+  tune_mm Sorted true ex_keys ex_hist = Some (Diag v) /\ length v = 7%nat /\
+  exists y, nth_error v 6 = Some y /\ y == (20000 # 3) + reg.
+Proof.
+  eexists. split; [vm_compute; reflexivity|]. split; [reflexivity|].
+  eexists. split; [vm_compute; reflexivity|]. vm_compute. reflexivity.
+Qed.
+
+Example ex_aligned_dense : exists m,
+  tune_mm Sorted false ex_keys ex_hist = Some (Dense m) /\ length m = 7%nat /\
+  exists y, entry m 4 6 = Some y /\ y == 200 # 3.
+Proof.
+  eexists. split; [vm_compute; reflexivity|]. split; [reflexivity|].
+  eexists. split; [vm_compute; reflexivity|]. vm_compute. reflexivity.
+Qed.
+
+Example ex_order_invariant :
+  Permutation ex_keys [("B", 4%nat); ("zeta", 1%nat); ("alpha", 2%nat)] /\
+  NoDup (map fst ex_keys).
+Proof.
+  split.
+  - apply Permutation_sym. eapply perm_trans; [apply perm_swap|]. apply perm_skip. apply perm_swap.
+  - repeat constructor; cbn; intuition discriminate.
+Qed.
+
+Example ex_own_keys : agree_on ex_keys ex_hist (("other2", [[1]]) :: tl ex_hist).
+Proof.
+  intros k Hk. cbn in Hk.
+  destruct Hk as [<-|[<-|[<-|[]]]]; vm_compute; reflexivity.
+Qed.
+
+(* a state whose trace is four times the new trace: the oracle hypothesis of step_rescale holds
+   with sqrt 4 = 2, and the step size doubles *)
+Definition ex_sqrt (x : Q) : Q := if Qeq_bool x 4 then 2 else 0.
+Definition ex_h2 : history := [("a", [[0]; [2]])].     (* var = 2, new trace = 2 + 1/1000 *)
+Definition ex_st : kstate := mkK (1 # 2) (Diag [4 * (2 + reg)]).
+
+Example ex_step_rescale : exists st',
+  tune_slow ex_sqrt Sorted true [("a", 1%nat)] ex_st (Some ex_h2) = Some st' /\
+  ex_sqrt (trace (imm ex_st) / trace (imm st')) * ex_sqrt (trace (imm ex_st) / trace (imm st'))
+    == trace (imm ex_st) / trace (imm st') /\
+  step st' == 1.
+Proof.
+  eexists. split; [vm_compute; reflexivity|]. split; vm_compute; reflexivity.
+Qed.
+
+Example ex_last_slow_epoch : exists st',
+  run_epochs ex_sqrt Sorted true [("a", 1%nat)] ex_st
+    ([(false, Some ex_h2); (true, Some [("a", [[0]; [8]])])] ++ (true, Some ex_h2) :: [(false, None); (true, None)])
+    = Some st' /\ Forall no_retune [(false, @None history); (true, None)].
+Proof.
+  eexists. split; [vm_compute; reflexivity|].
+  constructor; [left; reflexivity|]. constructor; [right; reflexivity|]. constructor.
 Qed.
